@@ -236,6 +236,10 @@ func vtNewConn(t *testing.T, o *vu.Out, mode string, connBuf, streamWin int64) *
 		tr.MaxReadFrameSize = 1 << 20
 	})
 	c.configured = connBuf + InitialWindowSize
+	if c.configured > vMaxWindow {
+		c.configured = vMaxWindow // a receive window cannot exceed 2^31-1 (RFC 9113 6.9.1)
+		c.o.Stat("branch:config-above-max-window")
+	}
 	c.streamInit = InitialWindowSize
 	c.conn = InitialWindowSize
 	c.settle()
@@ -528,11 +532,14 @@ func vtExec(t *testing.T, mode string, ops []string, o *vu.Out) {
 			if s != nil {
 				res = s.response()
 			}
-			if res == nil || s.bodyDone {
+			if res == nil || s.closing != nil {
 				skip()
 			} else if s.pend != nil {
 				c.obs = append(c.obs, "busy")
 			} else {
+				if s.bodyDone {
+					c.o.Stat("branch:body-closed-again")
+				}
 				c.startClose(s, res)
 				s.status = vtClosed
 			}
@@ -646,6 +653,18 @@ func vtGen(r *vu.Rng, i int, mode string) []string {
 		connBuf = 1 << 20
 	default:
 		connBuf += int64(r.Intn(200000))
+	}
+	if r.Chance(1, 12) { // configured sizes up to the largest accepted value, around 2^31-1-65535
+		switch r.Intn(4) {
+		case 0:
+			connBuf = vMaxWindow
+		case 1:
+			connBuf = vMaxWindow - InitialWindowSize + int64(r.Range(-2, 2))
+		case 2:
+			connBuf = vMaxWindow - int64(r.Intn(70000))
+		default:
+			connBuf = 1<<30 + int64(r.Intn(1<<30))
+		}
 	}
 	var streamWin int64
 	switch r.Intn(5) {
@@ -820,6 +839,9 @@ func vtGen(r *vu.Rng, i int, mode string) []string {
 			readOp(s)
 		case k < 75:
 			ops = append(ops, fmt.Sprintf("bclose %d", s.id))
+			if r.Chance(1, 3) { // explicit Close followed by a deferred one
+				ops = append(ops, fmt.Sprintf("bclose %d", s.id))
+			}
 			if s.hasResp {
 				tearDown(s)
 			}
@@ -864,7 +886,7 @@ func vtGen(r *vu.Rng, i int, mode string) []string {
 		case 0:
 			ops = append(ops, fmt.Sprintf("read %d %d", s.id, 1<<21), fmt.Sprintf("read %d 10", s.id))
 		case 1:
-			ops = append(ops, fmt.Sprintf("bclose %d", s.id))
+			ops = append(ops, fmt.Sprintf("bclose %d", s.id), fmt.Sprintf("bclose %d", s.id))
 		case 2:
 			ops = append(ops, fmt.Sprintf("read %d %d", s.id, r.Range(1, 5000)))
 		}
